@@ -26,6 +26,8 @@ impl Transcript {
 
     pub fn random_felt_to_prover(&mut self) -> Felt {
         let hash = poseidon_hash(self.digest, self.counter);
+        #[cfg(swiftness_verif)]
+        crate::verif::ev("squeeze").f("digest", &self.digest).f("counter", &self.counter).f("out", &hash).emit();
         self.counter += Felt::ONE;
         hash
     }
@@ -41,12 +43,16 @@ impl Transcript {
 
     pub fn read_felt_from_prover(&mut self, val: &Felt) {
         let hash = poseidon_hash_many([&(self.digest + Felt::ONE), val]);
+        #[cfg(swiftness_verif)]
+        crate::verif::ev("absorb").f("before", &self.digest).fs("msg", [val]).f("digest", &hash).emit();
         self.digest = hash;
         self.counter = Felt::ZERO;
     }
 
     pub fn read_felt_vector_from_prover(&mut self, val: &[Felt]) {
         let hash = poseidon_hash_many(vec![&(self.digest + Felt::ONE)].into_iter().chain(val));
+        #[cfg(swiftness_verif)]
+        crate::verif::ev("absorb").f("before", &self.digest).fs("msg", val.iter()).f("digest", &hash).emit();
         self.digest = hash;
         self.counter = Felt::ZERO;
     }
